@@ -157,3 +157,40 @@ func init() {
 	models["github.com/gogo/protobuf/proto.CompactTextString"] = textString
 	models["github.com/gogo/protobuf/proto.MarshalTextString"] = textString
 }
+
+// ---- streaming hashers (sha256.New(): Write*, Sum): the digest is the hash UF of the concatenation of everything written ----
+
+type hasherData struct {
+	model modelFn
+	acc   *StrV
+}
+
+func init() {
+	sha := func(b []byte) []byte { h := sha256.Sum256(b); return h[:] }
+	models["crypto/sha256.New"] = func(it *Interp, a []Val) Val {
+		return IfaceV{V: &Native{Kind: "hasher", Data: &hasherData{
+			model: (*Interp)(nil).hashModel("sha256", 32, sha, false), acc: &StrV{IsB: true}}}}
+	}
+}
+
+func (it *Interp) hasherMethod(n *Native, name string, a []Val) Val {
+	h := n.Data.(*hasherData)
+	switch name {
+	case "Write":
+		s := a[0].(*StrV)
+		h.acc = it.strConcat(h.acc, s)
+		return Tuple{it.strLen(s), IfaceV{}}
+	case "Sum":
+		d := h.model(it, []Val{h.acc}).(*StrV)
+		return it.strConcat(a[0].(*StrV), d)
+	case "Reset":
+		h.acc = &StrV{IsB: true}
+		return nil
+	case "Size":
+		return BVu(64, 32)
+	case "BlockSize":
+		return BVu(64, 64)
+	}
+	it.fail("hasher method %s", name)
+	return nil
+}
